@@ -117,6 +117,10 @@ func runProperty(def *propertyDef, tier, repo, verif string, seed int, writeEvid
 
 	if tier == "thorough" {
 		runThorough(def, w, r, repo, verif, &st)
+	} else {
+		// quick tier: the positive controls of this property (rules must still fire)
+		r.Rule("G.control", "positive controls: each control variant (one instance broken in a scratch copy of the current tree) must be reported by its expected rule; a miss marks the rule dead", 0)
+		runCorpus(def, r, repo, verif, &st, true)
 	}
 	return r.finish(verif, seed, start, st, def.Explanation, append(def.Assumptions, commonAssumptions...))
 }
